@@ -89,7 +89,7 @@ func genC20Calls(t *rapid.T, s *c20Shared, n int) []c20Call {
 	p := s.stack.P
 	var calls []c20Call
 	for i := 0; i < n; i++ {
-		kind := rapid.SampledFrom([]string{"parse", "parse-invalid", "apply-create", "apply-update", "compose", "compose-copy-move", "transform", "resolve", "process", "vdr-create", "vdr-read", "canonicalize"}).Draw(t, "callKind")
+		kind := rapid.SampledFrom([]string{"parse", "parse-invalid", "apply-create", "apply-update", "compose", "compose-copy-move", "construct", "transform", "resolve", "process", "vdr-create", "vdr-read", "canonicalize"}).Draw(t, "callKind")
 		origin := rapid.SampledFrom(c20Origins).Draw(t, "origin")
 		switch kind {
 		case "parse", "parse-invalid":
@@ -144,6 +144,35 @@ func genC20Calls(t *rapid.T, s *c20Shared, n int) []c20Call {
 				s.enter(&s.inApply)
 				defer s.leave(&s.inApply)
 				return rmDigest(s.stack.Applier.Apply(anchoredBytes("update", ub, suffix, anchorMeta{Time: 3, Canonical: "d"}), prev))
+			}})
+		case "construct":
+			// components are not only shared, new ones are made while others are in use (a handler per namespace, a protocol
+			// version per request): a freshly constructed stack / handler parses and resolves what the shared ones do
+			cr := newCreate(18, genKey(t, "rec"), pool()[ktP256][2], []interface{}{map[string]interface{}{"action": "add-also-known-as", "uris": []interface{}{"https://construct.example/" + fmt.Sprint(len(calls))}}}, nil, "")
+			raw := cr.bytes()
+			which := rapid.IntRange(0, 2).Draw(t, "constructWhat")
+			calls = append(calls, c20Call{kind, func() string {
+				switch which {
+				case 0:
+					fresh := newStack(p)
+					op, err := fresh.Parser.Parse("did:sidetree", raw)
+					if err != nil {
+						return "ERR:" + err.Error()
+					}
+					return rmDigest(fresh.Applier.Apply(anchoredBytes("create", raw, op.UniqueSuffix, anchorMeta{Time: 2, Canonical: "c"}), &protocol.ResolutionModel{}))
+				case 1:
+					h, err := dochandler.New("did:ion")
+					if err != nil {
+						return "ERR:" + err.Error()
+					}
+					return digest(h.ProcessOperation(raw))
+				default:
+					v, err := longform.New()
+					if err != nil {
+						return "ERR:" + err.Error()
+					}
+					return fmt.Sprint(v.Accept("ion"), v.Accept("other"))
+				}
 			}})
 		case "compose-copy-move":
 			// several copy / move operations of sizeable values: every call has its own document with its own marker
@@ -601,4 +630,83 @@ func blockedInLibrary() map[string]string {
 		}
 	}
 	return out
+}
+
+// TestC20_VersionProviders: several namespaces are registered at the same time from one list of protocol versions (in any
+// order of genesis times). Every provider then serves the latest version as current and finds every version by its
+// genesis time - as it would if the registrations had been made one after the other - and the caller's list is not
+// touched.
+func TestC20_VersionProviders(t *testing.T) {
+	st := statsFor("C20")
+	defer runtime.GOMAXPROCS(runtime.GOMAXPROCS(0))
+	check(t, "C20", 60, func(t *rapid.T) {
+		procs := rapid.SampledFrom([]int{2, 4, 16}).Draw(t, "gomaxprocs")
+		workers := rapid.SampledFrom([]int{2, 4, 8, 16}).Draw(t, "goroutines")
+		nv := rapid.IntRange(2, 6).Draw(t, "versions")
+		times := rapid.Permutation([]uint64{0, 10, 20, 30, 40, 50}[:nv]).Draw(t, "genesisOrder")
+		var shared []protocol.Version
+		for i, g := range times {
+			shared = append(shared, &vcommon.ProtocolVersion{VersionStr: fmt.Sprintf("v%d", i), P: protocol.Protocol{GenesisTime: g}})
+		}
+		before := append([]protocol.Version{}, shared...)
+		latest := shared[0]
+		for _, v := range shared {
+			if v.Protocol().GenesisTime > latest.Protocol().GenesisTime {
+				latest = v
+			}
+		}
+		runtime.GOMAXPROCS(procs)
+		ns := nsprovider.New()
+		errs := make(chan string, workers)
+		var wg sync.WaitGroup
+		start := make(chan struct{})
+		for w := 0; w < workers; w++ {
+			wg.Add(1)
+			go func(w int) {
+				defer wg.Done()
+				<-start
+				p, err := verprovider.New(shared)
+				if err != nil {
+					errs <- err.Error()
+					return
+				}
+				name := fmt.Sprintf("did:ns%d", w)
+				ns.Add(name, p)
+				got, err := ns.ForNamespace(name)
+				if err != nil {
+					errs <- fmt.Sprintf("namespace %s registered and not found: %v", name, err)
+					return
+				}
+				cur, err := got.Current()
+				if err != nil || cur != latest {
+					errs <- fmt.Sprintf("provider of %s serves %v as current (%v), the latest version is %s", name, cur, err, latest.Version())
+					return
+				}
+				for _, v := range before {
+					if f, err := got.Get(v.Protocol().GenesisTime); err != nil || f != v {
+						errs <- fmt.Sprintf("provider of %s does not find version %s by its genesis time %d: %v", name, v.Version(), v.Protocol().GenesisTime, err)
+						return
+					}
+				}
+			}(w)
+		}
+		close(start)
+		awaitWorkers(t, &wg, "C20 concurrent registration of version providers")
+		close(errs)
+		for e := range errs {
+			t.Fatalf("C20 (GOMAXPROCS=%d, %d goroutines registering from one version list %v) %s", procs, workers, times, e)
+		}
+		for i := range shared {
+			if shared[i] != before[i] {
+				t.Fatalf("C20 the caller's list of versions was reordered by the registrations (genesis times %v)", times)
+			}
+		}
+		sorted := true
+		for i := 1; i < len(times); i++ {
+			if times[i] < times[i-1] {
+				sorted = false
+			}
+		}
+		st.Case(!sorted, fmt.Sprint("verprovider|", times, workers, procs), "registry-version-provider", fmt.Sprintf("goroutines-%d", workers))
+	})
 }
